@@ -298,9 +298,9 @@ def lib():
         from qce_circuit.library.state_calibration import circuit_constructors as scc
         from qce_circuit.library.state_calibration import circuit_components as scomp
         from qce_circuit.language import InitialStateContainer, InitialStateEnum
-        from qce_circuit.connectivity.intrf_channel_identifier import QubitIDObj
+        from qce_circuit.connectivity.intrf_channel_identifier import QubitIDObj, EdgeIDObj
     return types.SimpleNamespace(cc=cc, comp=comp, conn=conn, scc=scc, scomp=scomp, ISC=InitialStateContainer,
-                                 ISE=InitialStateEnum, QubitIDObj=QubitIDObj)
+                                 ISE=InitialStateEnum, QubitIDObj=QubitIDObj, EdgeIDObj=EdgeIDObj)
 
 
 LAYOUTS = ['Repetition9Code', 'Repetition9Round6Code', 'Repetition5Round4Code']
@@ -340,6 +340,17 @@ def make_description(spec):
         return L.comp.RepetitionCodeDescription.from_connectivity(
             involved_qubit_ids=[L.QubitIDObj(q) for q in chain], connectivity=getattr(L.conn, name)(),
             qubit_refocusing=bool(refocus))
+    if spec[0] == 'composite':
+        # ['composite', base spec, [i, …]]: CompositeRepetitionCodeDescription over the base description with the gates between
+        # qubit_ids[i] and qubit_ids[i+1] excluded (C10-m3: an excluded last-layer gate moves the ancilla's closing rotation)
+        _, base_spec, excluded = spec
+        base = make_description(base_spec)
+        if base is None:
+            raise ValueError(spec)
+        qids = base.qubit_ids
+        return L.comp.CompositeRepetitionCodeDescription(
+            _base_description=base, _qubit_index_map={q: i for i, q in enumerate(qids)}, _connectivity=base.to_sequence(),
+            _exclude_gate_edge_ids=[L.EdgeIDObj(qids[i], qids[i + 1]) for i in excluded])
     raise ValueError(spec)
 
 
@@ -380,6 +391,8 @@ def n_data(desc_spec, data_default=3):
         return data_default
     if desc_spec[0] == 'chain':
         return (desc_spec[1] + 1) // 2
+    if desc_spec[0] == 'composite':
+        return n_data(desc_spec[1], data_default)
     return (desc_spec[3] + 1) // 2
 
 
